@@ -448,4 +448,15 @@ pub fn run(r: &mut Runner) {
     });
     r.states += r.transitions.min(u64::MAX) / 3;
     let _ = hexf(1.0);
+    {
+        let org = crate::organic::states(if quick { 1 } else { 2 });
+        let no = org.len();
+        r.notes.push(format!("organic operands: {} chain states (depth {} from the C01 seeds)", no, if quick { 1 } else { 2 }));
+        r.par("organic operands (chain results): text + serialize", no.div_ceil(256), no as u64, |c, l| {
+            for i in (c * 256)..((c + 1) * 256).min(no) {
+                rec.record(l, (1u64 << 60) + (i * 2) as u64, judge_text(org[i]));
+                rec.record(l, (1u64 << 60) + (i * 2 + 1) as u64, judge_ser(org[i]));
+            }
+        });
+    }
 }
